@@ -14,8 +14,9 @@ CFG = {
     'types_are_records': {VL: True},
     'record_ctypes': ['vec_layout'],
     'types_prelude': '#include "vecgen.h"\ntypedef struct layout layout;\nVERIF_VEC(vec_layout, layout);\n',
-    'extern': {VL + r'::begin': 'GVEC_BEGIN', VL + r'::end': 'GVEC_END',
-               r'__gnu_cxx::operator!=': {'c': 'GIT_NE', 'by_value': True},
+    'extern': {VL + r'::begin': 'GVEC_BEGIN', VL + r'::end': 'GVEC_END', VL + r'::size': 'GVEC_SIZE', VL + r'::empty': 'GVEC_EMPTY',
+               r'std::max_element': 'layout_max_element', VLIT + r'::operator->': {'c': 'PTR_ID', 'by_value': True},
+               r'__gnu_cxx::operator!=': {'c': 'GIT_NE', 'by_value': True}, r'__gnu_cxx::operator==': {'c': 'GIT_EQ', 'by_value': True},
                VLIT + r'::operator\+\+': 'GIT_PREINC', VLIT + r'::operator\*': {'c': 'GIT_DEREF', 'by_value': True}},
     'loop_contracts': {'layout_add_union': {1: '''__CPROVER_assigns(__begin1, self->m_size)
 __CPROVER_loop_invariant(__CPROVER_same_object(__begin1, layouts.data) && __CPROVER_POINTER_OFFSET(__begin1) <= layouts.len * sizeof(layout) && __CPROVER_POINTER_OFFSET(__begin1) % sizeof(layout) == 0)
@@ -23,7 +24,7 @@ __CPROVER_loop_invariant(__end1 == layouts.data + layouts.len)
 __CPROVER_loop_invariant(self->m_size >= __CPROVER_loop_entry(self->m_size))
 __CPROVER_loop_invariant(g_k * sizeof(layout) >= __CPROVER_POINTER_OFFSET(__begin1) || self->m_size >= layouts.data[g_k].m_size)
 __CPROVER_decreases(layouts.len * sizeof(layout) - __CPROVER_POINTER_OFFSET(__begin1))'''}},
-    'bodies_prelude': 'extern size_t g_k;\n',
+    'bodies_prelude': 'extern size_t g_k;\n#include "layout_algo_model.h"\n',
     'names': {'layout::add_union': 'layout_add_union', '(anonymous namespace)::align': 'layout_align', 'layout::reserve|layout::loc (size_t, size_t)': 'layout_reserve',
               'layout::size': 'layout_size', '_ZN6layout3locC1Em': 'layout_loc_ctor'},
 }
@@ -63,6 +64,9 @@ INPUTS = ['a', 'b', 'in_size', 'in_align', 's1', 'a1', 's2', 'a2']
 EV_UNWIND = 12
 
 
+LOOP_CONTRACT_APPLIED = {'add_union': True}
+
+
 def jobs(tier):
     src = [os.path.join(HERE, 'harness.c'), os.path.join(OUT, 'layout_bodies.c')]
     inc = [OUT, os.path.join(vlib.VERIF, 'props'), HERE]
@@ -72,8 +76,14 @@ def jobs(tier):
     add('align', 'h_align', 'layout_align')
     add('reserve', 'h_reserve', 'layout_reserve', replace=['layout_align'])
     add('size', 'h_size', 'layout_size')
-    J.append(Job('add_union', src, 'h_add_union', enforce='layout_add_union', loop_contracts=True, includes=inc, timeout=600,
-                 inputs=['g_k'], note='range-for loop closed by a loop contract with a ghost index: any number of alternatives (<= 4096)'))
+    J.append(Job('bounded_add_union_small', src, 'hb_add_union_small', includes=inc, kind='bounded', unwind=6, timeout=300,
+                 note='add_union with <= 3 alternatives, plain unwinding: exact maximum; independent of how the function is written'))
+    if LOOP_CONTRACT_APPLIED['add_union']:
+        J.append(Job('add_union', src, 'h_add_union', enforce='layout_add_union', loop_contracts=True, includes=inc, timeout=600,
+                     inputs=['g_k'], note='range-for loop closed by a loop contract with a ghost index: any number of alternatives (<= 4096)'))
+    # else: add_union no longer has the loop the contract was written for (rewritten): a failing frame or invariant obligation
+    # of the stale contract would be a failed PROOF, not a violation -- the job is left out, the bounded job above decides, and the
+    # evidence says so (ASSUMPTIONS, added in prepare)
     add('two_reservations', 'h_two_reservations', None, replace=['layout_reserve'], kind='lemma',
         note='client lemma proved from the contract of reserve alone')
     lsrc = src + [os.path.join(OUT, 'lex_bodies.c')]
@@ -109,6 +119,10 @@ def spec_files():
 
 def prepare(tier):
     lw = vlib.extract('layout', 'libzwerg/layout.cc', CFG, ROOTS, OUT)
+    LOOP_CONTRACT_APPLIED['add_union'] = 'layout_add_union#1' in lw.report.get('loop_contracts_applied', [])
+    note = 'add_union: the loop the loop contract was written for is gone (function rewritten); the unbounded add_union obligation was NOT checked in this run, only the bounded one (<= 3 alternatives)'
+    if not LOOP_CONTRACT_APPLIED['add_union'] and note not in ASSUMPTIONS:
+        ASSUMPTIONS.append(note)
     gen = vlib.gen_frontend(os.path.join(OUT, 'gen'))
     lx = vlib.extract('lex', os.path.join(gen, 'lexer.cc'), LEX_CFG, LEX_ROOTS, OUT, extra_flags=['-I' + gen])
     lf = vlib.extract('life', 'libzwerg/op.cc', LIFE_CFG, LIFE_ROOTS, OUT)
